@@ -1,4 +1,4 @@
-package internalpkg
+package fieldpkg
 
 import (
 	"math/big"
@@ -24,6 +24,5 @@ func FuzzFieldOps(f *testing.F) {
 			Prior: fv(big.NewInt(9)), Alias: aliases[int(flags>>2)%len(aliases)], Cond: uint64(flags>>7) & 1, Rel: "fuzz"}
 		c12.FuzzOne(t, c)
 		c12bytes.FuzzOne(t, caseC12bytes{Kind: "parse32", Data: gen.H(ref.OS2IP(a))})
-		c11.FuzzOne(t, caseC11{U: c.U})
 	})
 }
